@@ -31,7 +31,7 @@ RULE = ("systematic population (fault enumeration): for each of 9 builder base i
         "structure field, and single-bit flips of every bit of every byte of every mapped header structure (quick: one "
         "bit of every third byte); seeded population: 1-3 random faults (truncate, flip, overwrite, crafted field, splice of two "
         "payloads, zero tail, appended garbage) on builder images, the 7 real samples, or pure garbage. Each faulty "
-        "image goes through all 12 entry points. non-trivial = at least one entry point took a non-default path "
+        "image goes through all 14 entry points. non-trivial = at least one entry point took a non-default path "
         "(found MZ / config / marker / header, or raised ValueError after partial parsing); distinct = distinct digest")
 ASSUMPTIONS = [
     "reader is a full-read seekable file (SimFile == BytesIO semantics; from_path uses a real scratch file)",
@@ -52,7 +52,7 @@ EXHAUSTIVE_SCOPE = ("thorough: the systematic grid (all mapped truncations, craf
                     "mapped header structures) is enumerated completely for each of the 9 base images; the seeded "
                     "multi-fault population and the choice of base images are sampled")
 
-ENTRIES = ["from_bytes", "from_bytes_all", "from_file", "from_path", "xor_from_file", "find_mz_offset",
+ENTRIES = ["from_bytes", "from_bytes_all", "from_file", "from_path", "xor_from_file", "xor_from_path", "find_mz_offset",
            "find_architecture", "find_compile_stamps", "find_magic_mz", "find_magic_pe", "find_stage_prepend_append",
            "artifactkit", "parse_raw_http"]
 
@@ -536,6 +536,20 @@ def execute(plan: dict) -> Result:
                 if xf is not None:
                     res.probes["xorencoded_detected"] += 1
                     res.nontrivial = True
+            elif entry == "xor_from_path":
+                if len(img) <= 60000:
+                    path = os.path.join(_scratch_dir(), f"img-{os.getpid()}.bin")
+                    with open(path, "wb") as fo:
+                        fo.write(img)
+
+                    def fx(s):
+                        xf = XorEncodedFile.from_path(path)
+                        try:
+                            xf.fh.close()
+                        except Exception:
+                            pass
+                        return xf
+                    check(entry, fx, XorEncodedFile)
             elif entry == "find_mz_offset":
                 v = check(entry, lambda s: pe.find_mz_offset(s.file(img)), int, allow_none=True)
                 if v is not None:
